@@ -325,7 +325,7 @@ def run(ctx: common.Ctx):
     setitemtie.run(ctx, 150 if quick else 3000)
     # graph-level tie: coordinate grid + index + Expand + ScatterND (Model/TGraphScatter.setitemGraph; Props/C09Scatter.lean)
     from .. import scattertie
-    scattertie.run(ctx, 120 if quick else 3000, label="setitem", kinds=("setitem", "setitem", "setitem_mask", "setitem_int"))
+    scattertie.run(ctx, 120 if quick else 1500, label="setitem", kinds=("setitem", "setitem", "setitem_mask", "setitem_int"))
     sjobs = [(fn, d, m) for fn in list(PURE_CALLS) + list(NO_COPY) for d in sd for m in ("eager", "lazy")]
     rows = tables.pmap(sharing_row, sjobs, chunk=16, strict=True)
     table = []
